@@ -4,7 +4,7 @@ E2: explains_flow + weight type on every solution of kFlowDecomp / MinFlowDecomp
     given weights; edge and node origin) and of the cyclic classes."""
 from fractions import Fraction as F
 import networkx as nx
-import common, gen, gen2, lpdump, e1, props, vcheck
+import zoo, common, gen, gen2, lpdump, e1, props, vcheck
 
 LEVEL = "proof"
 EXPLANATION = ("Props/C02.v: the rows generated for kFlowDecomp (PathEnc.encode_kfd) force, for every non-ignored edge, "
@@ -207,4 +207,36 @@ def run(ctx):
             check_solution(ctx, "MinFlowDecomp", args, m, m.get_solution())
         else:
             ctx.count("E2_explains_flow", "mfd_unsolved")
+    # the cyclic decompositions: explains_flow with multiplicities (weight times number of traversals), over random
+    # safety option vectors (the fixing variants change which rows/bounds carry the decomposition)
+    CYC = ["optimize_with_safe_sequences", "optimize_with_safe_sequences_allow_geq_constraints",
+           "optimize_with_safe_sequences_fix_via_bounds", "optimize_with_safe_sequences_fix_zero_edges",
+           "optimize_with_safety_as_subset_constraints"]
+    for i in range(ctx.budget(90, 2000)):
+        rng = ctx.rng("cyc", i)
+        name = "kFlowDecompCycles" if i % 3 else "MinFlowDecompCycles"
+        info = zoo.make(rng, name, node=False, with_cons=rng.random() < 0.3, with_ignore=rng.random() < 0.3, nmax=6)
+        r = rng.random()
+        opts = None if r < 0.25 else {f: (rng.random() < 0.5) for f in CYC}
+        if opts is not None:
+            opts["optimize_with_safe_sequences"] = True if r < 0.85 else opts["optimize_with_safe_sequences"]
+            if r < 0.55:       # fixing through bounds only (no rows, no zero-fixing): the decomposition rows rely on the queued bounds
+                opts["optimize_with_safe_sequences_fix_via_bounds"] = True; opts["optimize_with_safe_sequences_fix_zero_edges"] = False
+            info["kwargs"]["optimization_options"] = opts
+        args = dict(G=info["G"], flow_attr="flow", weight_type=info["kwargs"]["weight_type"],
+                    elements_to_ignore=[tuple(e) for e in info["ignore"]], optimization_options=opts)
+        if info["kwargs"].get("k") is not None:
+            args["k"] = info["kwargs"]["k"]
+        try:
+            m = zoo.construct(info); m.solve()
+        except ValueError:
+            ctx.dist("cyc ValueError"); continue
+        except Exception as e:
+            ctx.report(f"{name} raised {e!r}", {"class": name, "instance": zoo.describe(info)}); continue
+        ctx.case(["cyc", zoo.describe(info)], nontrivial=True)
+        if m.is_solved():
+            ctx.count("E2_explains_flow", "cyclic_solved")
+            check_solution(ctx, name, args, m, m.get_solution(), routes_key="walks")
+        else:
+            ctx.count("E2_explains_flow", "cyclic_unsolved")
     VB.flush()
